@@ -282,6 +282,18 @@ def stack_component_rules(prog, chk, pid, tier):
     fr = prog.method(BF3Q + ".Bf3Component", "from_encrypted_raw_data")
     chk.require(bad_rt is None, P("stack-read-back"), fr.qualname, "from_encrypted_raw_data(get_raw_data(...)) for %d content lengths" % len(lengths), "%s:%d" % (fr.file, fr.lineno),
                 "decrypting the stored bytes with the session key gives the content followed only by zero bytes, with the declared length and the encrypt-on-write flag kept", "content length %s: %s" % bad_rt if bad_rt else "")
+    # history: a component written once and then given new content must be stored as the ciphertext of the NEW content
+    blob1, blob2 = R.syms("o", 19), R.syms("n", 30)
+    src_h = ("def drv(sk, b1, b2):\n    c = Bf3Component({}, b1, None, True)\n    r1 = c.get_raw_data(sk)\n    r1b = c.get_raw_data(sk)\n    c.blob = b2\n    c.actual_len = len(b2)\n    r2 = c.get_raw_data(sk)\n    return (r1, r1b, r2)\n")
+    ex, res = stk.run(BF3Q, src_h, {"sk": sk, "b1": sbytes(blob1), "b2": sbytes(blob2)})
+    okh, whyh = not res.dead and res.ret is not None, "raises"
+    if okh:
+        r1, r1b, r2 = [R.flat(ex, res, x) for x in unsnap(res.ret).args[0]]
+        p1, p1b, p2 = [R.cbc_plain_blocks(x, sk) if x is not None else None for x in (r1, r1b, r2)]
+        w1, w2 = blob1 + [C(0)] * (-len(blob1) % 16), blob2 + [C(0)] * (-len(blob2) % 16)
+        okh = p1 is not None and p1b is not None and p2 is not None and len(p1) == len(w1) and all(a is b for a, b in zip(p1, w1)) and all(a is b for a, b in zip(p1b, w1)) and len(p2) == len(w2) and all(a is b for a, b in zip(p2, w2))
+        whyh = "after the content was replaced the stored bytes are not the ciphertext of the current content"
+    chk.require(okh, P("stack-history-independent"), fg.qualname, "get_raw_data twice, replace blob, get_raw_data again", where, "the stored bytes depend only on the component's current content and the key, not on earlier calls", whyh)
     # a component not marked for encryption is stored as is
     ex, res = stk.run(BF3Q, "def drv(sk, blob):\n    return Bf3Component({}, blob).get_raw_data(sk)\n", {"sk": sk, "blob": sbytes(R.syms("b", 21))})
     okp = not res.dead and res.ret is not None and unsnap(res.ret).op == "sbytes" and len(unsnap(res.ret).args[0]) == 21
